@@ -13,7 +13,7 @@ from __future__ import annotations
 from ..facts import AnalysisError
 from ..terms import const, contains, show, strip_sites
 from ..util import NoInline, P, calls_to, engine, loc, param_at
-from .ordering import (PROTO, TS, Ctx, atomic_notifications, expiry_once, reboot_before_entries, reject_before_record)
+from .ordering import (arming, cancel_on_removal, PROTO, TS, Ctx, atomic_notifications, expiry_once, reboot_before_entries, reject_before_record)
 
 DISC = "sd.ServiceDiscover"
 OFFERED = "sd.ClientServiceListener.service_offered"
@@ -36,6 +36,9 @@ def check(run, prog, tier):
     cx = Ctx(run, prog)
     atomic_notifications(cx, "A1", "stopped")
     expiry_once(cx, "A1")
+    # a stale TTL timer would report a live entry gone: cancel-on-replace and arming are part of truthfulness
+    cancel_on_removal(cx, "T1")
+    arming(cx, "T2")
     reject_before_record(cx, "A1")  # a new entry is announced exactly once, a refresh is silent
 
     # ------------------------------------------------------------------ A2 who may notify
